@@ -31,6 +31,27 @@ def createTail (pp : Path) (n : Name) (isMkdir : Bool) (old : Option MNode) (met
   let ri ← pr.mkNode meth n X
   installChild pp n isMkdir old pr ri
 
+/-- the same with an arbitrary way of making the entry (`do_link`: `link` instead of `mknod`) -/
+def createTailG (pp : Path) (n : Name) (isMkdir : Bool) (old : Option MNode) (mk : Real → M Real) : M Unit := do
+  let pr ← getUpperReal pp
+  whenM (oldInUpper old) (tryDeleteWhiteout pr n)
+  let ri ← mk pr
+  installChild pp n isMkdir old pr ri
+
+/-- `mk pr` behaves like the `mknodat`-style creation of the entry `X` named `n` under `pr`, on
+    every state whose upper layer satisfies `C` -/
+structure MkLike (mk : Real → M Real) (n : Name) (X : Node) (C : Layer → Prop) : Prop where
+  ok : ∀ (s : St) (r : Real) (L L' : Layer), r.inUpper = true → s.disk.layer r.layer = some L → C L →
+    hMk L r.path n X = .ok L' →
+    ∃ s', mk r s = .ok (childReal r n) s' ∧ s'.disk = s.disk.setLayer r.layer L' ∧ s'.mem = s.mem
+  err : ∀ (s : St) (r : Real) (L : Layer) (e : Nat), r.inUpper = true → s.disk.layer r.layer = some L → C L →
+    hMk L r.path n X = .error e →
+    ∃ s', mk r s = .err e s' ∧ s'.disk = s.disk ∧ s'.mem = s.mem
+
+theorem mkLike_mkNode (meth : Method) (n : Name) (X : Node) :
+    MkLike (fun pr => pr.mkNode meth n X) n X (fun _ => True) :=
+  ⟨fun _ _ _ _ hu hL _ hf => mkNode_ok' meth n X hu hL hf, fun _ _ _ _ hu hL _ hf => mkNode_err' meth n X hu hL hf⟩
+
 /-- what the new entry must look like -/
 structure NewEntry (isMkdir : Bool) (X : Node) : Prop where
   present : X.isAbsent = false
@@ -73,13 +94,15 @@ theorem parent_isDir_of_kid {s : St} (hc : Consistent s) {pp : Path} {pm : MNode
     have : (s.disk.statReal r).isDir = false := by simp [Disk.statReal, hl0, hp0, hd]
     simp [localExp, hr, takeDirs, this, newFromReals]
 
-theorem createTail_cons {s : St} (hc : Consistent s) (pp : Path) (n : Name) (isMkdir : Bool)
-    (old : Option MNode) (meth : Method) (X : Node) (hX : NewEntry isMkdir X)
+theorem createTailG_cons {s : St} (hc : Consistent s) (pp : Path) (n : Name) (isMkdir : Bool)
+    (old : Option MNode) (mk : Real → M Real) (X : Node) (hX : NewEntry isMkdir X)
+    {C : Layer → Prop} (hML : MkLike mk n X C)
+    (hC : ∀ L, s.disk.upper = some L → C L ∧ C (L.set (n :: pp) .absent))
     {pm : MNode} (hpm : s.mem pp = some pm) (hpu : pm.inUpper = true) (hlo : pm.loaded = true)
     (hold : match old with
       | none => n ∉ pm.kids
       | some o => s.mem (n :: pp) = some o ∧ o.whiteout = true) :
-    Outcome (createTail pp n isMkdir old meth X s)
+    Outcome (createTailG pp n isMkdir old mk s)
       (fun _ s' => Consistent s' ∧
         (isMkdir = true → old.isSome = true → (s'.disk.nodeAt 0 (n :: pp)).isOpaqueDir = true))
       (fun s' => Consistent s') := by
@@ -96,7 +119,8 @@ theorem createTail_cons {s : St} (hc : Consistent s) (pp : Path) (n : Name) (isM
   have hL0 : s.disk.layer pr.layer = some L := by rw [hprl]; exact hup
   have hri : childReal pr n = { layer := 0, inUpper := true, path := n :: pp, whiteout := false, opq := false } := by
     simp [childReal, hprl, hprp]
-  unfold createTail
+  obtain ⟨hCL, hCL'⟩ := hC L hup
+  unfold createTailG
   rw [bind_ok (getUpperReal_ok hpm hpr)]
   -- common end of the successful paths: the upper layer now has `X'` at the path
   cases old with
@@ -106,11 +130,11 @@ theorem createTail_cons {s : St} (hc : Consistent s) (pp : Path) (n : Name) (isM
     rw [bind_ok (pure_eval () s)]
     cases hmk : hMk L pr.path n X with
     | error e =>
-      obtain ⟨s1, he, hd1, hm1⟩ := mkNode_err' meth n X hpru hL0 hmk
+      obtain ⟨s1, he, hd1, hm1⟩ := hML.err s pr L e hpru hL0 hCL hmk
       rw [bind_err he]
       exact hc.congr hd1 hm1
     | ok L' =>
-      obtain ⟨s1, hok, hd1, hm1⟩ := mkNode_ok' meth n X hpru hL0 hmk
+      obtain ⟨s1, hok, hd1, hm1⟩ := hML.ok s pr L L' hpru hL0 hCL hmk
       rw [bind_ok hok]
       -- what success of mkdirat/mknodat/... tells about the upper layer
       rw [hprp] at hmk
@@ -168,7 +192,7 @@ theorem createTail_cons {s : St} (hc : Consistent s) (pp : Path) (n : Name) (isM
     -- after the (possible) deletion of the upper whiteout the upper layer has nothing at the path
     have step1 : ∃ s1 L1, (whenM (oldInUpper (some o)) (tryDeleteWhiteout pr n)) s = .ok () s1 ∧
         s1.disk = s.disk.setLayer 0 L1 ∧ s1.mem = s.mem ∧ (L1 (n :: pp)).isAbsent = true ∧
-        (∀ X', L1.set (n :: pp) X' = L.set (n :: pp) X') ∧ (L1 pp).isDir = true := by
+        (∀ X', L1.set (n :: pp) X' = L.set (n :: pp) X') ∧ (L1 pp).isDir = true ∧ C L1 := by
       by_cases hou : o.inUpper = true
       · obtain ⟨r0, _, hl0, hp0, _, hw0, rest0, hr0⟩ := upper_head hc hom hou
         rw [hro] at hr0
@@ -184,22 +208,22 @@ theorem createTail_cons {s : St} (hc : Consistent s) (pp : Path) (n : Name) (isM
         refine ⟨s1, L.set (n :: pp) .absent, ?_, by rw [hd1, hprl], hm1, by simp [Layer.set, Node.isAbsent],
           fun X' => Layer.set_set _ _ _ _, ?_⟩
         · simp only [oldInUpper, hou, whenM_true]; exact h1
-        · simp only [Layer.set, if_neg (ne_cons_self n pp)]; exact hpd
+        · exact ⟨by simp only [Layer.set, if_neg (ne_cons_self n pp)]; exact hpd, hCL'⟩
       · simp only [Bool.not_eq_true] at hou
         obtain ⟨_, _, _, habs, _⟩ := lowerDir_facts hc n pp hpm hom hpu hou hro
-        refine ⟨s, L, ?_, ?_, rfl, by simpa [Disk.nodeAt, Disk.layer, hup] using habs, fun _ => rfl, hpd⟩
+        refine ⟨s, L, ?_, ?_, rfl, by simpa [Disk.nodeAt, Disk.layer, hup] using habs, fun _ => rfl, hpd, hCL⟩
         · simp only [oldInUpper, hou, whenM_false]; rfl
         · simp [Disk.setLayer, hup]
           cases hs : s.disk with
           | mk up lo => simp [hs] at hup ⊢; exact hup
-    obtain ⟨s1, L1, hs1, hd1, hm1, hL1a, hL1set, hL1p⟩ := step1
+    obtain ⟨s1, L1, hs1, hd1, hm1, hL1a, hL1set, hL1p, hCL1⟩ := step1
     rw [bind_ok hs1]
     -- mknod / mkdir / ... now succeeds
     have hmk : hMk L1 pr.path n X = .ok (L1.set (n :: pp) X) := by
       rw [hprp]
       cases hx : L1 pp <;> simp_all [hMk, hParent, Node.isDir]
     have hL01 : s1.disk.layer pr.layer = some L1 := by rw [hprl, hd1]; simp [Disk.layer, Disk.setLayer]
-    obtain ⟨s2, hok, hd2, hm2⟩ := mkNode_ok' meth n X hpru hL01 hmk
+    obtain ⟨s2, hok, hd2, hm2⟩ := hML.ok s1 pr L1 _ hpru hL01 hCL1 hmk
     rw [bind_ok hok]
     have hdisk2 : s2.disk = s.disk.setUpper (n :: pp) X := by
       rw [hd2, hd1, hprl, hL1set X]; simp [Disk.setUpper, hup, Disk.setLayer]
@@ -306,6 +330,19 @@ theorem createTail_cons {s : St} (hc : Consistent s) (pp : Path) (n : Name) (isM
         (by rw [hloc]; simp) []
       exact ⟨this.congr (by rw [hd3, hdisk2]) (by rw [hm3, hmem2]), fun h => by cases h⟩
 
+theorem createTail_cons {s : St} (hc : Consistent s) (pp : Path) (n : Name) (isMkdir : Bool)
+    (old : Option MNode) (meth : Method) (X : Node) (hX : NewEntry isMkdir X)
+    {pm : MNode} (hpm : s.mem pp = some pm) (hpu : pm.inUpper = true) (hlo : pm.loaded = true)
+    (hold : match old with
+      | none => n ∉ pm.kids
+      | some o => s.mem (n :: pp) = some o ∧ o.whiteout = true) :
+    Outcome (createTail pp n isMkdir old meth X s)
+      (fun _ s' => Consistent s' ∧
+        (isMkdir = true → old.isSome = true → (s'.disk.nodeAt 0 (n :: pp)).isOpaqueDir = true))
+      (fun s' => Consistent s') :=
+  createTailG_cons hc pp n isMkdir old (fun pr => pr.mkNode meth n X) X hX (mkLike_mkNode meth n X)
+    (fun _ _ => ⟨trivial, trivial⟩) hpm hpu hlo hold
+
 /-- `copy_node_up` with everything it guarantees on success -/
 theorem copyNodeUp_spec (p : Path) (s : St) (hc : Consistent s) :
     Outcome (copyNodeUp p s) (fun _ s' => CUD p s s') (fun s' => Consistent s') := by
@@ -320,7 +357,7 @@ theorem copyNodeUp_spec (p : Path) (s : St) (hc : Consistent s) :
         cases h : s.disk.upper with
         | none => have := no_upper_not_inUpper hc h hm; rw [this] at hmu; cases hmu
         | some L => rfl
-      exact ⟨hc, ⟨m, hm, hmu⟩, rfl, hu, fun _ _ => rfl, fun p' m0 h => ⟨m0, h, rfl, rfl⟩⟩
+      exact ⟨hc, ⟨m, hm, hmu⟩, rfl, hu, fun _ _ => rfl, fun p' m0 h => ⟨m0, h, rfl, rfl⟩, StatKept.refl s⟩
     · simp only [hmu, Bool.false_eq_true, if_false]
       simp only [Bool.not_eq_true] at hmu
       have hst := nodeStat_eq hc hm
